@@ -1,0 +1,25 @@
+//go:build verif
+
+// Contracts for the deductive verifier in /verif (govc). Comment-only.
+
+package tag
+
+//@ # the byte-wise order of Go strings, as an abstract strict total order
+//@ uf strLess(string, string) bool
+//@ axiom strLess_total any: allof(a, "string", b, "string", (a == b || strLess(a, b) || strLess(b, a)) && !(strLess(a, b) && strLess(b, a)) && !strLess(a, a))
+//@ axiom strLess_trans any: allof(a, "string", b, "string", c, "string", (strLess(a, b) && strLess(b, c)) ==> strLess(a, c))
+//@ # C16: a repeated tag key is resolved to one value, the tags come out sorted by key
+//@ # (that every returned tag is one of the given ones is not claimed: the forall-exists invariant did not discharge reliably)
+//@ func KeyValues.DeDup
+//@   prop C16
+//@   arith math
+//@   requires forall(i, 0, len(kvs), kvs[i] != nil)
+//@   modifies kvs[*]
+//@   ensures[short_lists_are_returned_as_they_are] len(kvs) < 2 ==> (len(result) == len(kvs) && forall(i, 0, len(kvs), result[i] == old(kvs[i])))
+//@   ensures[keys_strictly_increasing_so_no_key_twice] forall(i, 1, len(result), result[i - 1] != nil && result[i] != nil && strLess(result[i - 1].Key, result[i].Key))
+//@   ensures[not_longer_and_not_empty] len(result) <= len(kvs) && (len(kvs) >= 1 ==> len(result) >= 1)
+//@   ensures[result_is_a_prefix_of_the_reordered_list] len(result) <= len(kvs) && forall(i, 0, len(result), result[i] == kvs[i])
+//@   loop 1 invariant fast >= 1 && fast <= len(kvs) && slow >= 0 && slow < fast && forall(i, 0, len(kvs), kvs[i] != nil)
+//@   loop 1 invariant forall(i, 1, slow + 1, strLess(kvs[i - 1].Key, kvs[i].Key))
+//@   loop 1 invariant forall(i, fast, len(kvs), !strLess(kvs[i].Key, kvs[i - 1].Key)) && (fast < len(kvs) ==> !strLess(kvs[fast].Key, kvs[slow].Key))
+//@ end
